@@ -747,9 +747,17 @@ peg::parser! {
                 BraceExpressionMember::Child(child_pieces)
             }
 
+        // N.B. A numeric sequence with more elements than fit a C `int` is not expanded
+        // (the braces stay literal text), as in bash.
         pub(crate) rule brace_sequence_expr() -> BraceExpressionMember =
-            start:number() ".." end:number() increment:(".." n:number() { n })? {
-                BraceExpressionMember::NumberSequence { start, end, increment: increment.unwrap_or(1) }
+            start:number() ".." end:number() increment:(".." n:number() { n })? {?
+                let increment = increment.unwrap_or(1);
+                let step = i128::from(increment.unsigned_abs().max(1));
+                let count = (i128::from(end) - i128::from(start)).abs() / step + 1;
+                if count > i128::from(i32::MAX - 2) {
+                    return Err("sequence of reasonable size");
+                }
+                Ok(BraceExpressionMember::NumberSequence { start, end, increment })
             } /
             start:character() ".." end:character() increment:(".." n:number() { n })? {
                 BraceExpressionMember::CharSequence { start, end, increment: increment.unwrap_or(1) }
